@@ -124,7 +124,7 @@ Proof.
   intro H. unfold tryNextSasl. destruct tables_late_closed as [_ [_ [L3 _]]]. destruct tables_avoid_sasl as [_ [S2 _]].
   okstep; [apply ok_expect; exact H|].
   okstep.
-  - okstep; [apply ok_ret; assumption|].
+  - okstep; [apply ok_reconnect; assumption|].
     okstep; [apply ok_transition; try assumption; apply InvA_with_sasl; assumption|].
     okstep; [apply ok_endCap; assumption|apply ok_ret; assumption].
   - apply ok_send. apply InvA_with_sasl. assumption.
